@@ -10,6 +10,13 @@ from zcv import gen, refload
 MAIN = "file:///zcv/main.conf"
 _SCHEMA_CACHE = {}
 
+# $name / ${name} must never fall back to the process environment: define every name the
+# generators reference (in every spelling) there, so that such a fallback would show.
+import os as _os
+for _n in ("nope", "x", "zd", "Zd", "ZD", "zD", "da", "Db", "dc", "DA", "DB", "DC", "Da", "db", "Dc",
+           "a", "A", "b", "B", "c", "C", "d", "other"):
+    _os.environ[_n] = "FROM-ENVIRONMENT-" + _n
+
 
 def zc():
     import ZConfig
@@ -172,6 +179,21 @@ def real_load_url(schema, url, overrides=()):
     ZConfig = zc()
     try:
         cfg, handler = ZConfig.loadConfig(schema, url, overrides)
+        return ("ok", cfg, handler)
+    except ZConfig.ConfigurationError as e:
+        return ("reject", e)
+    except RecursionError as e:
+        return ("internal", e, "recursion", "recursion")
+    except Exception as e:  # noqa
+        zf, inner = innermost_zconfig_frame(e)
+        return ("internal", e, zf, inner)
+
+
+def real_load_with(loader, text, url=MAIN):
+    """Load through an existing loader object (to exercise several loads by one loader)."""
+    ZConfig = zc()
+    try:
+        cfg, handler = loader.loadFile(io.StringIO(text), url)
         return ("ok", cfg, handler)
     except ZConfig.ConfigurationError as e:
         return ("reject", e)
